@@ -13,8 +13,9 @@ Property predicate on the implementation's answer alone (`propfail <clause>`):
   `terminates`  the evaluation did not end (`hang`);  `panic`
   `order`       the values handed to the consumer are not items 0, 1, 2, … in this order with their own keys
   `complete`    nothing fails, yet not all N values were yielded or an error was reported
-  `error`       something fails, yet the evaluation ended without an error, with an error that is not the error of
-                a failing item, or yielded the value of an item at or after the first failing one
+  `error`       something fails (f on an item, or the lazy SOURCE collection's own function at position `sfail`), yet
+                the evaluation ended without an error, with an error that is neither a failing item's nor the
+                source's, or yielded the value of an item at or after the first failure
 Model conformance (`diff …`): the event log is REPLAYED through the protocol model (`MapParallel.step`; every
 transition taken is checked to be a member of `step s`).  Hidden steps (dispatcher sends, channel receives,
 result sends, the consumer's receive between its `n` and `t` events, errgroup returns, closes) are inserted on
@@ -35,8 +36,9 @@ deriving Repr
 
 structure Run where
   n : Nat
-  N : Nat
+  N : Nat                      -- items the source yields: the literal's length, or the position at which the source fails
   fail : List Nat
+  srcFails : Bool := false     -- the source collection is lazy and its own function fails at position `N`
 
 def field (op key : String) : Option String :=
   match op.splitOn (" " ++ key ++ "=") with
@@ -53,10 +55,20 @@ def parseRun (op : String) : Option Run := do
   let n ← (← field op "n").toNat?
   let N ← (← field op "N").toNat?
   let fail ← (← parseBracket (← field op "fail")).mapM (·.toNat?)
-  some { n := n, N := N, fail := fail }
+  match field op "sfail" with
+  | none => some { n := n, N := N, fail := fail }
+  | some "-" => some { n := n, N := N, fail := fail }
+  | some t => do
+    let k ← t.toNat?
+    guard (k < N)
+    some { n := n, N := k, fail := fail, srcFails := true }
+
+/-- the source's error is written as this index by the parser and replaced by `N` (what the model calls it) -/
+def srcMark : Nat := 1000000007
 
 def parseEnd (s : String) : Option (Option (Option Nat)) :=
-  if s == "nil" then some (some none)
+  if s == "s" then some (some (some srcMark))
+  else if s == "nil" then some (some none)
   else if s == "other" then some none
   else (s.toNat?).map fun k => some (some k)
 
@@ -113,10 +125,13 @@ def propertyClause (r : Run) (a : Answer) : Option String :=
     if !inOrder ts 0 then some "order"
     else match finOf a.evs, minFail r with
       | none, _ => some "terminates"
-      | some e, none => if e == some none && ts.length == r.N then none else some "complete"
+      | some e, none =>
+        if r.srcFails then (if e == some (some srcMark) && ts.length ≤ r.N then none else some "error")
+        else if e == some none && ts.length == r.N then none else some "complete"
       | some e, some m =>
         match e with
-        | some (some k) => if r.fail.contains k && k < r.N && ts.length ≤ m then none else some "error"
+        | some (some k) =>
+          if ((r.fail.contains k && k < r.N) || (r.srcFails && k == srcMark)) && ts.length ≤ m then none else some "error"
         | _ => some "error"
 
 /-! ### replay through the model -/
@@ -229,7 +244,9 @@ def silent (c : Cfg) (want : Option Nat) (s : St) : M (Option (St × Nat)) :=
       if s.gerr.isSome then pure (some ({ s with disp := D.closing }, 0))
       else throw s!"item-{s.write}-never-passed-to-f-though-nothing-failed"
     else pure (some ({ s with disp := D.closing }, 0))
-  | .closing => pure (some ({ s with disp := D.exited, inClosed := true }, 0))
+  | .closing =>
+    let g' : Option Nat := if s.gerr.isSome then s.gerr else (if c.srcFails then some c.N else none)
+    pure (some ({ s with disp := D.exited, inClosed := true, gerr := g' }, 0))
   | .exited =>
     match findLane (fun l => l.wk != Wk.exited) s with
     | some (j, l) =>
@@ -277,7 +294,17 @@ def replay (c : Cfg) : List Ev → Nat → RS → M Unit
     if !es.isEmpty then throw "events-after-the-end"
     match e with
     | none => throw "an-error-that-is-not-an-item's"
-    | some want =>
+    | some want0 =>
+      let want := if want0 == some srcMark then some c.N else want0
+      -- the source's error can only be the group's first error if the dispatcher got to the end of the source
+      -- before anything was cancelled: send what is left, leave the loop, close, return — before any worker returns
+      let rs ← (if want == some c.N && c.srcFails then do
+          let rs ← (if c.N > 0 then sendUpTo c (c.N - 1) (c.N + 2) rs else pure rs)
+          let t ← follow c rs.s { rs.s with disp := D.closing }
+          let g' : Option Nat := if t.gerr.isSome then t.gerr else (if c.srcFails then some c.N else none)
+          let t ← follow c t { t with disp := D.exited, inClosed := true, gerr := g' }
+          pure { rs with s := t }
+        else pure rs)
       let s ← runDown c want (6 * (c.n + c.N) + 16) rs.s
       if s.fin != some want then
         throw (match s.fin with
@@ -286,11 +313,11 @@ def replay (c : Cfg) : List Ev → Nat → RS → M Unit
           | none => "model-not-terminal")
 
 def conform (r : Run) (a : Answer) : M Unit := do
-  let c : Cfg := { n := r.n, N := r.N, fails := fun k => r.fail.contains k }
+  let c : Cfg := { n := r.n, N := r.N, fails := fun k => r.fail.contains k, srcFails := r.srcFails }
   -- `map`: the values before the first failing item, then its error
   let (wantCount, wantEnd) : Nat × Option (Option Nat) := match minFail r with
     | some m => (m, some (some m))
-    | none => (r.N, some none)
+    | none => if r.srcFails then (r.N, some (some srcMark)) else (r.N, some none)
   if a.mapCount != wantCount || a.mapEnd != wantEnd then throw "map-itself-differs-from-its-spec"
   -- the replay costs O(lanes²) (every worker returns in a step of its own): above 1024 cores only the property
   -- predicate and `map` are checked
